@@ -5,5 +5,7 @@ CONSTANTS
   Canonical = "canonical"
   ExpectedPis = 21
   KeyMode = "baked"
+  MaxSlots = 3
+  LoopMode = "all"
 INVARIANTS RecInv Emit
 CHECK_DEADLOCK FALSE
